@@ -1131,7 +1131,7 @@ def classify(oracle_id, detail, res):
 
 class Spec:
     prop = PROP
-    tiers = {"quick": 40_000, "thorough": 1_500_000}
+    tiers = {"quick": 30_000, "thorough": 1_500_000}
     selftest_samples = 200
     fresh_samples = 60
     shrink_runs = 1200
